@@ -252,6 +252,50 @@ func checkC02(c *core.Ctx) {
 				Scenario: map[string]any{"scenario": sc, "seed": seed}})
 		}(i, sc, seed)
 	}
+	// backlog scenarios: a long user backlog builds up first, then system messages arrive while the consumer is
+	// in the middle of it (directed phases, then random)
+	for i := 0; i < core.Pick(c, 40, 400); i++ {
+		sc := &mbScenario{Callers: map[string][][]string{}, MsgScript: map[string][][]string{}, RingSize: []int64{1, 16, 256}[i%3]}
+		nUser := 60 + rng.Intn(90)
+		var s1 [][]string
+		for k := 1; k <= nUser; k++ {
+			id := fmt.Sprintf("m%d", k)
+			sc.MsgScript[id] = nil
+			s1 = append(s1, []string{"enq", id})
+		}
+		sc.Callers["s1"] = s1
+		var s2 [][]string
+		for k := 1; k <= 1+rng.Intn(3); k++ {
+			id := fmt.Sprintf("y%d", k)
+			sc.MsgScript[id] = nil
+			sc.Sys = append(sc.Sys, id)
+			s2 = append(s2, []string{"enq", id})
+		}
+		sc.Callers["s2"] = s2
+		for k := 1; k <= 16; k++ {
+			sc.Pool = append(sc.Pool, fmt.Sprintf("c%d", k))
+		}
+		sched := []mbStep{{T: "s1", Pc: "**"}, {T: "c?", Pc: "*", N: 3 + rng.Intn(6*nUser)}, {T: "s2", Pc: "**"}}
+		seed := c.Seed*15485863 + int64(i)
+		wg.Add(1)
+		sem <- struct{}{}
+		go func(i int, sc *mbScenario, sched []mbStep, seed int64) {
+			defer wg.Done()
+			defer func() { <-sem }()
+			run := runMailboxScenario(sc, sched, seed)
+			mu.Lock()
+			defer mu.Unlock()
+			if run.Stuck != "" {
+				c.Broken("mailbox backlog scenario %d: controller stuck: %s", i, run.Stuck)
+				return
+			}
+			c.Add("evaluations", 1)
+			c.Add("messages_handled", int64(run.Handled))
+			nontrivial++
+			mtraces = append(mtraces, &Trace{Events: run.Events, Class: "mailbox-backlog", Name: fmt.Sprintf("backlog#%d", i),
+				Scenario: map[string]any{"scenario": sc, "schedule": sched, "seed": seed}})
+		}(i, sc, sched, seed)
+	}
 	wg.Wait()
 	if c.IsBroken() {
 		return
